@@ -80,8 +80,22 @@ func (x *Exec) verifyFunction(fn *ssa.Function, con *Contract, ifaceCon *Contrac
 		args = append(args, t)
 		argT = append(argT, t)
 	}
-	if len(fn.FreeVars) > 0 {
-		x.unsupported(st, fn.Pos(), "closures are verified by inlining into their parent")
+	// a function literal verified on its own: every captured variable is a cell holding an arbitrary well-formed value
+	var bind []Val
+	for _, fv := range fn.FreeVars {
+		pt, ok := fv.Type().Underlying().(*types.Pointer)
+		if !ok {
+			x.unsupported(st, fn.Pos(), "captured variable %s is not captured by reference", fv.Name())
+		}
+		elem := pt.Elem()
+		sort := x.reg.SortOf(elem)
+		t := x.reg.Global("fv_"+sanitize(x.curFn)+"_"+sanitize(fv.Name()), sort)
+		t = mkT(sort, t.S, elem)
+		x.assumeWF(st, t)
+		x.cellCtr++
+		c := &Cell{id: x.cellCtr, name: fv.Name(), typ: elem}
+		st.cells[c] = t
+		bind = append(bind, &Addr{Cell: c, Elem: elem})
 	}
 	var thisT *Term
 	bindIface := func(c *SpecCtx) {
@@ -143,12 +157,17 @@ func (x *Exec) verifyFunction(fn *ssa.Function, con *Contract, ifaceCon *Contrac
 	x.obls = append(x.obls, &Obligation{Func: x.curFn, Kind: "cover", Name: "requires", Goal: "false",
 		Assume: append([]string(nil), st.assume...), Decls: append([]string(nil), st.decls...), Pos: x.posStr(fn.Pos())})
 
-	outs := x.execFunction(st, fn, args, nil, true)
+	outs := x.execFunction(st, fn, args, bind, true)
 	ncover := 0
 	for _, o := range outs {
 		s := o.st
 		pc := x.newSpecCtx(s, nil, fn)
 		pc.bindParams(fn, argT)
+		for i, fv := range fn.FreeVars {
+			if t, ok := s.cells[bind[i].(*Addr).Cell].(*Term); ok {
+				pc.vars[fv.Name()] = t
+			}
+		}
 		bindIface(pc)
 		if active != nil {
 			pc.evalLetsOld(active)
